@@ -126,6 +126,7 @@ PreNames(r) ==
      \cup Bad("X07.StepLimitAction", r.act = lim.act)
      \cup Bad("X07.RangeSaved", (P.elossp # 0 /\ r.e0 # 0) => r.rng = lim.range)
      \cup Bad("X07.ExactArithmetic", r.inexact = 0)
+     \cup Bad("X07.ScratchIsolation", r.others)
      \cup (IF Len(r.pp) # P.np THEN {}
            ELSE UNION {SelNames(P, r, r.sel[x]) : x \in DOMAIN r.sel})
 
@@ -155,7 +156,7 @@ TLConfig ==
   /\ cfg' = Rec
   /\ Note(Bad("X07.Loop.ActionLabels",
               /\ Rec.acts.discrete = ActDiscrete /\ Rec.acts.range = ActRange /\ Rec.acts.reject = ActReject
-              /\ Rec.acts.fixed = (IF Rec.fixed_step > 0 THEN ActFixed ELSE ActNone)))
+              /\ Rec.acts.fixed = (IF Rec.hasfixed THEN ActFixed ELSE ActNone)))
   /\ stat' = Inc(stat, "runs")
   /\ UNCHANGED dd
 
@@ -184,7 +185,7 @@ StepNames(c, s) ==
       \* limit: the documented minimum with its tie rules, on ranks (infinite candidates rank highest)
       s1 == IF s.haseloss /\ s.rL_rstep <= s.rL_disc THEN [v |-> s.rL_rstep, a |-> c.acts.range]
             ELSE [v |-> s.rL_disc, a |-> discrete]
-      s2 == IF s.haseloss /\ c.fixed_step > 0 /\ s.rL_fixed < s1.v THEN [v |-> s.rL_fixed, a |-> c.acts.fixed]
+      s2 == IF s.haseloss /\ c.hasfixed /\ s.rL_fixed < s1.v THEN [v |-> s.rL_fixed, a |-> c.acts.fixed]
             ELSE s1
   IN
   \* MFP: sampled when there is none (new track, after a selection), else carried over unchanged
